@@ -283,10 +283,12 @@ func genC02Obj(t *rapid.T) c02ObjCase {
 	if c.K3y {
 		for c.Regions[0].End < 3 {
 			for i := range c.Regions {
-				if i > 0 {
+				if i > 0 && c.Regions[i].Start < 0xFFFFFFFE {
 					c.Regions[i].Start++
 				}
-				c.Regions[i].End++
+				if c.Regions[i].End < 0xFFFFFFFF {
+					c.Regions[i].End++ // (borders at the 32-bit maximum stay where they are)
+				}
 			}
 		}
 	}
